@@ -15,7 +15,7 @@ claim("C02",
       'DESIGN.md §8 C02, §13')
 claim("C03",
       "Lean 4 refinement proof: cached memory system = flat memory for every geometry, write policy and EVERY victim choice (policy-generic invariant proof); correspondence in forced-victim mode",
-      "22 theorems (Props/C03.lean): init/preload/reset invariants, read_refines, write_refines (WB and WT), history_refines for arbitrary operation lists and adversarial policy states, crossing and out-of-range accesses rejected with stored values unchanged, and the proved counterexample for block bits >= 13 (known finding F6). Correspondence: random and (thorough) exhaustive small-scope histories with a full dump of cache and backing store after every operation; the model is fed the victim the real policy chose, so the tie does not depend on LRU/PLRU details.",
+      "32 theorems. Props/C03Prog.lean (10), program level: rel_init, step_preserves_rel (one single-cycle step on a cached and a flat state related by CacheRel: same fault, related again - every instruction incl. print-string ecall), cached_run_equals_flat_run / cached_sim_equals_flat_sim (whole runs), five_stage_cached_equals_flat, program_same_result_all_modes (from the flat single-cycle run alone: both five-stage loops, with and without cache, stop fault-free within 5(k+2) cycles and all four configurations end with the same registers, output and exit code), plus two proved sharpness witnesses (word-crossing access, rejected print-string error value). Props/C03.lean (22): init/preload/reset invariants, read_refines, write_refines (WB and WT), history_refines for arbitrary operation lists and adversarial policy states, crossing and out-of-range accesses rejected with stored values unchanged, and the proved counterexample for block bits >= 13 (known finding F6). Correspondence: random and (thorough) exhaustive small-scope histories with a full dump of cache and backing store after every operation; the model is fed the victim the real policy chose, so the tie does not depend on LRU/PLRU details.",
       TB + "Geometry hypothesis blkBits <= 12 is necessary (F6). List aliasing inside the Python cache is modelled by value.",
       "DESIGN.md §8 C03")
 claim("C04",
